@@ -361,9 +361,10 @@ impl<'m> Iterator for NamedGroups<'m> {
     }
 
     fn size_hint(&self) -> (usize, Option<usize>) {
-        let size = self.mat.group_names[self.next_group_idx..]
-            .iter()
-            .filter(|s| !s.is_empty())
+        // Count the names still to be yielded: nonempty, and not a repeat of an earlier name.
+        let names = &self.mat.group_names;
+        let size = (self.next_group_idx..names.len())
+            .filter(|&idx| !names[idx].is_empty() && !names[..idx].contains(&names[idx]))
             .count();
 
         (size, Some(size))
